@@ -5796,7 +5796,8 @@ static int advance_tape(CSimulatorObject* self, unsigned long long tstates, unsi
     } else {
         self->tracer_state[0] = self->tape_edges[index + 1];
         if (index < block_max_index) {
-            unsigned p = (unsigned)(edge / (self->tape_edges[self->max_index] / 1000));
+            unsigned long long tape_length = self->tape_edges[self->max_index] / 1000;
+            unsigned p = (unsigned)(edge / (tape_length ? tape_length : 1));
             if (p > *progress) {
                 char pstr[17];
                 sprintf(pstr, "[%5.1f%%]\x08\x08\x08\x08\x08\x08\x08\x08", p / 10.0);
